@@ -91,16 +91,19 @@ def allReqs : List Req → List (List Act) → Bool
   | q :: qs, a :: as => holdsReq q a && allReqs qs as
   | _, _ => false
 
-/-- number of requests that handed at least one event to the pipeline -/
-def withInput : List (List Act) → Nat
-  | [] => 0
-  | a :: as => (if (inputs a).isEmpty then 0 else 1) + withInput as
+/-- number of requests that handed at least one event to the pipeline and read their body to its
+    end (`ended`: a gzip request whose stream is corrupt stops reading early — it may leave before
+    the others have started, and its source id may legitimately be taken again) -/
+def countLive : List Bool → List (List Act) → Nat
+  | e :: es, a :: as => (if e && !(inputs a).isEmpty then 1 else 0) + countLive es as
+  | _, _ => 0
 
 /-- the oracle for a case: every request satisfies `holdsReq`; every request used one source id
-    for all its events (`sidConst`); when the requests were in flight at the same time
-    (`conc`), those that made `In` calls used pairwise different source ids (`sidCount` distinct
-    ids observed). -/
-def holds (conc : Bool) (qs : List Req) (acts : List (List Act)) (sidConst : Bool) (sidCount : Nat) : Bool :=
-  allReqs qs acts && sidConst && (!conc || sidCount == withInput acts)
+    for all its events (`sidConst`); when the requests were in flight at the same time (`conc`: the
+    harness holds every request at its last read until all have got there), those that made `In`
+    calls and got there used pairwise different source ids (`sidCount` distinct ids among them). -/
+def holds (conc : Bool) (qs : List Req) (ended : List Bool) (acts : List (List Act))
+    (sidConst : Bool) (sidCount : Nat) : Bool :=
+  allReqs qs acts && sidConst && (!conc || sidCount == countLive ended acts)
 
 end FileD.SpecC11
